@@ -343,6 +343,19 @@ def check(prop, tier, seed, replay=None):
             table_cov["violation_replays"] = table_cov.get("violation_replays", []) + ecov.get("violation_replays", [])
             table_cov.setdefault("more_specs", []).append({"spec": ecov["spec"], "rows": ecov.get("evaluations")})
 
+    # 8. C17: the life of a request_uri under storage failures (Steps.tla: one fault at every storage call of push / use,
+    #    then a second and third use)
+    steps_cov = None
+    if prop == "C17":
+        import steps
+        part = steps.run_part(prop, binary, wd, "parfault", "ScnParFault", 1, "FaultKinds",
+                              ["ParAtMostOnce", "NoTokensOnFailure", "FailClosed", "RetryStillGuarded", "TypeOK"], "bfs", 4000 if tier == Q else 100000, seed)
+        sv, snotes, sknown, sreplays = steps.report(prop, [part], binary, wd, findings)
+        nviol += sv
+        replays = replays + sreplays
+        steps_cov = {"scenarios": "ScnParFault", "max_faults": 1, "schedules_executed": len(part["histories"]), "schedules_total": part["total"],
+                     "design_model_check": part["mc"], "trace_validation": part["rep"]["stats"], "sample": part["histories"][0], "violation_replays": sreplays}
+
     # vacuity: the alphabet must have exercised the reasons this property owns
     nontrivial = set()
     for h in histories:
@@ -365,6 +378,9 @@ def check(prop, tier, seed, replay=None):
     }
     if prop == "C04" and tier != Q:
         cov["unbounded_family_core"] = apalache_core(wd)
+    if steps_cov:
+        cov["storage_fault_schedules"] = steps_cov
+        cov["traces_validated_against_impl"] += steps_cov["schedules_executed"]
     if table_cov:
         cov["decision_tables"] = table_cov
         cov["violation_replays"] = replays + table_cov.get("violation_replays", [])
